@@ -244,8 +244,10 @@ def run(ctx):
             if rng.random() < 0.6:
                 kind = 'r2'
         elif u2 < 0.2:
-            pts, vt = gen.magnitude(rng, pts, 1.0, ('xytiny30', 'ytiny30', 'xoff30', 'xyhuge30'))
+            pts, vt = gen.magnitude(rng, pts, 1.0, ('xytiny30', 'ytiny30', 'ytiny30', 'xoff30', 'xyhuge30'))
             fam += vt
+            if 'tiny' in vt and rng.random() < 0.6:
+                kind = 'r2'              # total sum of squares ~1e-18: only an EXACT zero test tells a constant curve from a small one
         elif u2 < 0.28 and fam not in ('flat', 'flat+1', 'zigzag'):
             q = gen.bytecount_of(pts) if rng.random() < 0.5 else np.column_stack([pts[:, 0], np.floor(pts[:, 1] * 64)])
             if np.all(np.diff(q[:, 0]) > 0):
